@@ -59,6 +59,9 @@ pub struct NodeCfg {
     /// documents during repair is answered with an error
     #[serde(default)]
     pub storage_read_faults: Vec<u64>,
+    /// the store's `remove_tombstones` removes whatever row a key names (as SQLite's does)
+    #[serde(default)]
+    pub blunt_removal: bool,
 }
 
 #[derive(Serialize, Deserialize, Clone, Debug)]
@@ -231,6 +234,7 @@ impl<'a> Cluster<'a> {
                 st.scan_latency_max_ms = n.storage_scan_latency_max_ms;
                 st.read_faults = n.storage_read_faults.iter().copied().collect();
                 st.latency_seed = mix(cfg.net_seed, n.id as u64);
+                st.blunt_removal = n.blunt_removal;
             }
             stores.insert(n.id, s);
         }
